@@ -28,6 +28,8 @@ type PropDef struct {
 // then report a violation whose rule == Rule and whose site contains Site.
 type Mutant struct {
 	Name, File, Old, New, Rule, Site string
+	// optional second replacement in the same file (e.g. a statement moved out of a loop)
+	Old2, New2 string
 }
 
 var props = map[string]*PropDef{}
@@ -127,7 +129,14 @@ func mutantOverlay(m Mutant) (map[string][]byte, string) {
 	if strings.Count(s, m.Old) != 1 {
 		return nil, fmt.Sprintf("skipped: anchor text occurs %d times", strings.Count(s, m.Old))
 	}
-	return map[string][]byte{path: []byte(strings.Replace(s, m.Old, m.New, 1))}, ""
+	s = strings.Replace(s, m.Old, m.New, 1)
+	if m.Old2 != "" {
+		if strings.Count(s, m.Old2) != 1 {
+			return nil, fmt.Sprintf("skipped: second anchor text occurs %d times", strings.Count(s, m.Old2))
+		}
+		s = strings.Replace(s, m.Old2, m.New2, 1)
+	}
+	return map[string][]byte{path: []byte(s)}, ""
 }
 
 // runMutant: exit 0 fired, 3 missed, 4 skipped, 5 mutant does not compile.
